@@ -48,7 +48,36 @@ class EnumSwitch:
         t = self.target(variant)
         if t is None:
             return set()
-        return self.fn.dominated_by(t)
+        reg = self.fn.dominated_by(t)
+        j = self._or_pattern_body(t)
+        if j is not None:
+            reg = reg | self.fn.dominated_by(j)
+        return reg
+
+    def _or_pattern_body(self, t):
+        """`A { x } | B { x } => body`: each variant's arm target is a block that only copies the bindings out of the scrutinee
+        and jumps to the shared body, which nothing else enters. The body belongs to the arm of every variant of the pattern."""
+        fn = self.fn
+
+        def binding_block(b):
+            tt = fn.term(b)
+            if tt["k"] != "goto":
+                return None
+            for st in fn.stmts(b):
+                if st["k"] != "assign" or st["rv"]["k"] not in ("use", "ref"):
+                    return None
+                src = st["rv"].get("a") or st["rv"].get("p")
+                if not (is_place(src) and any(isinstance(e, dict) and "dc" in e for e in proj(src))):
+                    return None
+            return tt["t"]
+        j = binding_block(t)
+        if j is None:
+            return None
+        targets = set(self.arms.values())
+        preds = fn.preds(j)
+        if len(preds) < 2 or not all(p_ in targets and binding_block(p_) == j for p_ in preds):
+            return None
+        return j
 
 
 def discr_switches(prog, fn, adt=None):
